@@ -773,6 +773,12 @@ func (dsc *dataStoreCommand) copy(srcKeyName, destKeyName string, dds *dataStore
 	}
 
 	newSk, destExists := dsc.ds.copyStoreKeyUnlocked(srcKeyName, destKeyName, dds, replace)
+	if newSk != nil {
+		if list := newSk.getList(); list != nil {
+			// a list appeared under the destination name: clients blocked on it can proceed
+			dds.unblockListUnlocked(destKeyName, list.count)
+		}
+	}
 	if newSk == nil {
 		if destExists {
 			return RESULT_DESTINATION_EXISTS
@@ -807,6 +813,12 @@ func (dsc *dataStoreCommand) move(srcKeyName, destKeyName string, dds *dataStore
 	}
 
 	newSk, destExists := dsc.ds.moveStoreKeyUnlocked(srcKeyName, destKeyName, dds, replace)
+	if newSk != nil {
+		if list := newSk.getList(); list != nil {
+			// a list appeared under the destination name: clients blocked on it can proceed
+			dds.unblockListUnlocked(destKeyName, list.count)
+		}
+	}
 	if newSk == nil {
 		if destExists {
 			return RESULT_DESTINATION_EXISTS
@@ -3261,6 +3273,7 @@ func (dsc *dataStoreCommand) sort(sourceKeyName, byPattern, destKeyName string, 
 			str, _ := element.toString()
 			dsc.rpushUnlocked(destKeyName, list, []byte(str))
 		}
+		dsc.ds.unblockListUnlocked(destKeyName, list.count)
 
 		output.data = respInt(list.count)
 	} else {
